@@ -66,12 +66,7 @@ _reg('C09', [mutation.rule_c09_r1, mutation.rule_c09_r2],
 # ---------------------------------------------------------------------------- MANIFEST texts
 
 MANIFEST_TEXT: t.Dict[str, t.Dict[str, str]] = {}
-NOT_APPLICABLE: t.Dict[str, str] = {
-    'C20': "Canonical spelling, injectivity, idempotence and snake-reversibility of rename styles are statements about the "
-           "algebra of str.lower/upper/title/isupper/istitle and two regexes over all identifiers: facts about string values, "
-           "not about the shape of the code. No sound static argument in reach bounds them; the only structural clause (every "
-           "style has a joiner and one implementation is used everywhere) is decided under C15. DESIGN.md section 22.",
-}
+NOT_APPLICABLE: t.Dict[str, str] = {}
 
 
 def _mt(pid: str, level: str, technique: str, design_ref: str, note: str) -> None:
